@@ -27,7 +27,7 @@ RULE = ('(a) AutomatonStepper over synthesized Streett implementations of '
         'AutomatonStepper and Scheduler among them): every local state '
         'handed to a component holds exactly the variables it declares with '
         'the right values, hidden variables appear globally only mangled, '
-        'every recorded step satisfies every component\'s step function. '
+        'every recorded step satisfies every component\'s step function; components whose mangled hidden name equals a visible name are either refused (AssertionError) or kept apart; when a component refuses a step (ValueError) the assembly records none. '
         'non-trivial = stepper has an enabled and a disabled state / '
         'assembly has a hidden variable; distinct = case description')
 ASSUMPTIONS = ['dd trusted', 'action tables read out at bit level']
@@ -382,6 +382,8 @@ class Mock:
         return {v: (i + 1) % 8 for i, v in enumerate(self.spec['writes'])}
 
     def step(self, state):
+        if self.spec.get('refuse_at') == len(self.log):
+            raise ValueError('action is not enabled')
         self.log.append(dict(state))
         return self.next(state)
 
@@ -400,11 +402,22 @@ MOCKS = {
     'k': dict(reads=[], writes=['kk', '_k']),
     'kk': dict(reads=['kk'], writes=['k_', '_k']),
     'm': dict(reads=['turn'], writes=['mm', '_m']),
+    # a hidden variable whose mangled name equals a VISIBLE name (its own
+    # component's, or another component's): the assembly may refuse such
+    # components (AssertionError) but must not mix the two up silently
+    'arm': dict(reads=['kk'], writes=['arm_g', '_g']),
+    'p': dict(reads=[], writes=['q_z', '_p']),
+    'q': dict(reads=['q_z'], writes=['qq', '_z']),
+    # refuses its third step (ValueError, as a stepper whose action is
+    # disabled does)
+    'rf': dict(reads=['kk'], writes=['rfv', '_r'], refuse_at=2),
 }
+MAY_REFUSE = [{'arm'}, {'p', 'q'}]
 COMBOS = [('a', 'b_'), ('a', 'b_', 'ab'), ('c', 'c_'), ('k', 'kk'),
           ('a', 'k'), ('c', 'k', 'kk'), ('m', 'sched'), ('m', 'sched', 'k'),
           ('k', 'impl'), ('k', 'impl', 'impl2'), ('c_', 'impl'),
-          ('sched', 'impl', 'm')]
+          ('sched', 'impl', 'm'), ('arm', 'k'), ('p', 'q'), ('p', 'q', 'k'),
+          ('k', 'rf'), ('m', 'sched', 'rf')]
 
 
 def _assemblies():
@@ -472,14 +485,34 @@ def run_assembly(case, acc):
         asm.machines[nm] = comps[nm]
     has_hidden = False
     n = 0
+    may_refuse = any(m <= set(names) for m in MAY_REFUSE)
     try:
         asm.init()
         hist = [dict(asm.state)]
         for _ in range(4):
-            asm.step()
+            before, npast = asm.state, len(asm.past)
+            try:
+                asm.step()
+            except ValueError:
+                # a component signalled that it cannot move: no step was
+                # taken, so none may have been recorded
+                acc.count('refused_steps')
+                if asm.state != hist[-1] or len(asm.past) != npast:
+                    acc.ev()
+                    acc.violation(
+                        'step_recorded_although_a_component_refused', case,
+                        detail=dict(state_before=hist[-1],
+                                    state_after=asm.state,
+                                    history_grew_by=len(asm.past) - npast))
+                    return
+                break
             hist.append(dict(asm.state))
             n += 1
     except AssertionError as exc:
+        if may_refuse:
+            acc.ev(dict(c=case), nontrivial=True)
+            acc.count('colliding_names_refused')
+            return
         import traceback
         tb = traceback.extract_tb(exc.__traceback__)
         where = next((fr.name for fr in reversed(tb)
